@@ -176,7 +176,9 @@ TN2 == LTest(FALSE, ERel(<<Child(<<SWild>>), Child(<<SFilter(LCmp("==", ERel(<<>
 TNN == LTest(TRUE, ERel(<<Child(<<SFilter(LTest(TRUE, RelN(cB)))>>)>>))       \* !@[?!@.b]
 TEq == LCmp("==", RelN(cA), RelN(cX))                              \* @.a == @.x  (true when both select nothing)
 TLe == LCmp("<=", RelN(cX), EAbs(<<N1(cX)>>))                      \* @.x <= $.x
-C05Atoms == <<TA, TB, TC, NA, TK, TW, TN, TN2, TEq, TLe>>
+TNLt == LParen(TRUE, LCmp("<", RelN(cA), ELit(JInt(5))))           \* !(@.a < 5)    operands that are not comparable
+TNGe == LParen(TRUE, LCmp(">=", RelN(cA), RelN(cC)))               \* !(@.a >= @.c)
+C05Atoms == <<TA, TB, TC, NA, TK, TW, TN, TN2, TEq, TLe, TNLt, TNGe>>
 C05AtomsT == C05Atoms \o <<NB, TNN, LCmp("!=", RelN(cA), RelN(cC)), LTest(FALSE, EAbs(<<N1(cK)>>)), LTest(TRUE, EAbs(<<N1(cX)>>))>>
 C05A == IF Thorough THEN C05AtomsT ELSE C05Atoms
 C05And2 == Cross2(C05A, C05A, LAMBDA x, y : LAnd(<<x, y>>))
@@ -236,7 +238,10 @@ C10FnExprs == <<EFn("length", <<RelN(cX)>>), EFn("count", <<XW>>), EFn("count", 
                 EFn("length", <<EFn("value", <<RelN(cX)>>)>>), EFn("count", <<ERel(<<Desc(<<SWild>>)>>)>>),
                 EFn("value", <<ERel(<<N1(cX), Child(<<SFilter(LCmp(">", ERel(<<>>), ELit(JInt(1))))>>)>>)>>),     \* value(@.x[?@ > 1])
                 EFn("value", <<ERel(<<N1(cX), Child(<<SSlice(1, ABSENT, ABSENT)>>)>>)>>),                         \* value(@.x[1:])
-                EFn("count", <<ERel(<<N1(cX), Child(<<SFilter(LCmp(">", ERel(<<>>), ELit(JInt(5))))>>)>>)>>)>>
+                EFn("count", <<ERel(<<N1(cX), Child(<<SFilter(LCmp(">", ERel(<<>>), ELit(JInt(5))))>>)>>)>>),
+                EFn("value", <<ERel(<<Child(<<SFilter(LCmp(">", ERel(<<>>), ELit(JInt(1))))>>)>>)>>),             \* value(@[?@ > 1])  filter applied directly to @
+                EFn("value", <<ERel(<<Child(<<SSlice(1, ABSENT, ABSENT)>>)>>)>>),                                 \* value(@[1:])
+                EFn("count", <<ERel(<<Child(<<SSlice(5, ABSENT, ABSENT)>>)>>)>>)>>
 C10FnQ == FlattenSeq([f \in 1..Len(C10FnExprs) |->
              [k \in 1..5 |-> Flt1(LCmp("==", C10FnExprs[f], ELit(JInt(k - 1))))]
              \o << Flt1(LCmp(">=", C10FnExprs[f], ELit(JInt(0)))), Flt1(LCmp("<", C10FnExprs[f], ELit(JInt(2)))),
@@ -256,12 +261,22 @@ C10LitQ == << Flt1(LCmp("==", EFn("length", <<ELit(JStr(<<1078, 1078>>))>>), ELi
 C10PatDocPats == << <<39, 97, 39>>, <<34, 97>>, <<97, 39>>, <<92, 92, 91, 97, 46, 93>>, <<92, 92, 46>>, <<97, 92, 46, 98>>, <<92, 46>>, <<91, 97, 46, 93>>, <<91, 92, 93, 93>>, <<92, 92>>,
                    <<97, 92, 92, 98>>, <<40, 97, 124, 98, 41, 92, 46>>, <<91, 94, 92, 92, 93>>, <<97, 46, 98>>, <<91>>, <<92>> >>
 C10PatDocSubj == << <<39, 97, 39>>, <<34, 97>>, <<97, 39>>, <<92, 120>>, <<92, 97>>, <<92, 13>>, <<92, 46>>, <<97, 46, 98>>, <<97, 120, 98>>, <<46>>, <<93>>, <<92>>, <<97, 92, 98>>, <<97, 13, 98>>, <<120>>, <<97>> >>
+\* counted repetition, incl. a long one (size of the compiled automaton)
+RepN(c, n) == [i \in 1..n |-> c]
+C10RepPats == << RenderRe(RRep(RChr(97), 2, 2)), RenderRe(RRep(RCls(<< <<97, 98>> >>), 2, 3)), RenderRe(RRep(RGrp(RCat(<<RChr(97), RChr(98)>>)), 1, 0 - 1)),
+                RenderRe(RRep(RChr(97), 0, 0)), RenderRe(RRep(RAny, 12, 12)), RenderRe(RCat(<<RChr(98), RRep(RAny, 0, 2)>>)), <<97, 123, 50>>, <<97, 123, 51, 44, 50, 125>> >>
+C10RepSubj == << <<>>, <<97>>, <<97, 97>>, <<97, 97, 97>>, <<97, 98>>, <<97, 98, 97, 98>>, <<98, 97, 98, 97>>, <<98>>, <<98, 10>>, RepN(97, 12), RepN(97, 11), RepN(120, 13), <<97, 123, 50>> >>
+C10RepDoc == JArr(Cross2(C10RepSubj, C10RepPats, LAMBDA sj, pt : JObj(<<cP, cS>>, <<JStr(pt), JStr(sj)>>)))
+\* one LONG counted repetition (size of the compiled automaton), used with match only (search would be quadratic in TLC)
+C10BigN == IF Thorough THEN 1250 ELSE 150
+C10BigDoc == JArr(<<JObj(<<cP, cS>>, <<JStr(RenderRe(RRep(RAny, C10BigN, C10BigN))), JStr(RepN(97, C10BigN))>>),
+                    JObj(<<cP, cS>>, <<JStr(RenderRe(RRep(RAny, C10BigN, C10BigN))), JStr(RepN(97, C10BigN - 1))>>)>>)
 C10PatDoc == JArr(Cross2(C10PatDocSubj, C10PatDocPats, LAMBDA sj, pt : JObj(<<cP, cS>>, <<JStr(pt), JStr(sj)>>)))
 C10PatQ == << Flt1(LTest(FALSE, EFn("match", <<RelN(cS), RelN(cP)>>))), Flt1(LTest(FALSE, EFn("search", <<RelN(cS), RelN(cP)>>))) >>
-C10Docs == <<C10SubjDoc, C10FnDoc, C10PatDoc>>
+C10Docs == <<C10SubjDoc, C10FnDoc, C10PatDoc, C10RepDoc, C10BigDoc>>
 C10Queries == C10ReQ \o C10FnQ \o C10LitQ \o C10PatQ
 C10Pick(d, q) == IF q <= Len(C10ReQ) THEN d = 1 /\ Stride(IF Thorough THEN 1 ELSE 3, d, q)
-                 ELSE IF q <= Len(C10ReQ) + Len(C10FnQ) + Len(C10LitQ) THEN d = 2 ELSE d = 3
+                 ELSE IF q <= Len(C10ReQ) + Len(C10FnQ) + Len(C10LitQ) THEN d = 2 ELSE (d \in {3, 4} \/ (d = 5 /\ q = Len(C10Queries) - 1))
 
 (* ---------- C14: in, nin, none_of, any_of, subset_of ---------------------------- *)
 C14Elems == <<JNull, JBool(TRUE), JInt(1), JInt(2), JStr(cA), JArr(<<>>), JArr(<<JInt(1)>>), Obj1(cA, JInt(1))>>
@@ -309,11 +324,15 @@ C01DDocs == <<NestDoc("arr", C01DDepth), NestDoc("obj", C01DDepth), NestDoc("mix
 C01DQueries == << <<Desc(<<SWild>>)>>, <<Desc(<<SIndex(-1), SName(cA)>>)>>, <<Desc(<<SFilter(LTest(FALSE, ERel(<<>>)))>>)>> >>
                 \o (IF Thorough THEN << <<Desc(<<SIndex(0)>>)>>, <<Desc(<<SName(cA)>>)>>, <<Desc(<<SSlice(ABSENT, ABSENT, -1)>>)>> >> ELSE <<>>)
 
+(* ---------- C09D: very deep documents whose Normalized Paths have hundreds of steps (run with Evaluator_light.cfg) ---- *)
+C09DDocs == <<NestDoc("mix", IF Thorough THEN 400 ELSE 240), NestDoc("arr", IF Thorough THEN 400 ELSE 240)>>
+C09DQueries == << <<Desc(<<SWild>>)>> >>
+
 (* ---------- selection ------------------------------------------------------ *)
 Docs    == CASE Univ = "C01" -> C01Docs [] Univ = "C11" -> C11Docs [] Univ = "C03" -> C03Docs [] Univ = "C04" -> C04Docs
-             [] Univ = "C05" -> C05Docs [] Univ = "C10" -> C10Docs [] Univ = "C14" -> C14Docs [] Univ = "C15" -> C15Docs [] Univ = "C01D" -> C01DDocs
+             [] Univ = "C05" -> C05Docs [] Univ = "C10" -> C10Docs [] Univ = "C14" -> C14Docs [] Univ = "C15" -> C15Docs [] Univ = "C01D" -> C01DDocs [] Univ = "C09D" -> C09DDocs
 Queries == CASE Univ = "C01" -> C01Queries [] Univ = "C11" -> C11Queries [] Univ = "C03" -> C03Queries [] Univ = "C04" -> C04Queries
-             [] Univ = "C05" -> C05Queries [] Univ = "C10" -> C10Queries [] Univ = "C14" -> C14Queries [] Univ = "C15" -> C15Queries [] Univ = "C01D" -> C01DQueries
+             [] Univ = "C05" -> C05Queries [] Univ = "C10" -> C10Queries [] Univ = "C14" -> C14Queries [] Univ = "C15" -> C15Queries [] Univ = "C01D" -> C01DQueries [] Univ = "C09D" -> C09DQueries
 StrideN == CASE Univ = "C01" -> C01Stride [] Univ = "C11" -> C11Stride [] Univ = "C05" -> C05Stride [] Univ = "C14" -> C14Stride [] OTHER -> 1
 Mode    == IF "VERIF_MODE" \in DOMAIN IOEnv THEN IOEnv.VERIF_MODE ELSE CASE Univ = "C03" -> "paths" [] OTHER -> "nodes"
 Pick(d, q) == CASE Univ = "C03" -> C03Pick(d, q)
